@@ -6,7 +6,8 @@
    ranges).  [chunk_parses] / [cls_parse] are the grammar of one chunk as
    matchChunk reads it (escapes '\x', classes '[' '^'? range+ ']' with ranges
    lo or lo-hi whose bounds are read by getEsc); [pat_parses] cuts the pattern
-   into chunks with the model's own tokenizer scanChunk.
+   into chunks with the model's own tokenizer scanChunk; [pattern_grammar] (end of
+   the file) generates the same parses without the tokenizer.
 
    Semantics: [op_match] (one op consumes one byte / one rune), [ops_match],
    and two matchers over parsed patterns:
@@ -1167,3 +1168,236 @@ Qed.
 
 Lemma pat_parses_unique : forall pattern cks cks', pat_parses pattern cks -> pat_parses pattern cks' -> cks = cks'.
 Proof. intros pattern cks cks' H H'. exact (pat_parses_det H H'). Qed.
+
+(* ================================================================================================ *)
+(* A grammar of whole patterns that does not mention scanChunk                                     *)
+(* ================================================================================================ *)
+(* a chunk without unescaped '*' outside a class *)
+Inductive chunk_ns : str -> list op -> Prop :=
+| NS_nil : chunk_ns [] []
+| NS_any chunk ops : chunk_ns chunk ops -> chunk_ns (QMARK :: chunk) (OAny :: ops)
+| NS_esc c chunk ops : chunk_ns chunk ops -> chunk_ns (BSLASH :: c :: chunk) (OLit c :: ops)
+| NS_lit c chunk ops :
+    c <> LBRACK -> c <> QMARK -> c <> BSLASH -> c <> STAR ->
+    chunk_ns chunk ops -> chunk_ns (c :: chunk) (OLit c :: ops)
+| NS_class_neg body rs rest ops :
+    cls_parse false body rs rest -> chunk_ns rest ops ->
+    chunk_ns (LBRACK :: CARET :: body) (OClass true rs :: ops)
+| NS_class body rs rest ops :
+    hd 0%N body <> CARET -> cls_parse false body rs rest -> chunk_ns rest ops ->
+    chunk_ns (LBRACK :: body) (OClass false rs :: ops).
+
+(* pattern = '*'^k chunk rest ; rest empty or starting with '*' ; an empty chunk only at the end *)
+Inductive pattern_grammar : str -> list pchunk -> Prop :=
+| PG_nil : pattern_grammar [] []
+| PG_cons k chunk rest ops cks :
+    (0 < k \/ chunk <> []) -> chunk_ns chunk ops ->
+    (rest = [] \/ exists r, rest = STAR :: r) -> (chunk = [] -> rest = []) ->
+    pattern_grammar rest cks ->
+    pattern_grammar (repeat STAR k ++ chunk ++ rest) ((Nat.ltb 0 k, ops) :: cks).
+
+Lemma chunk_ns_parses chunk ops : chunk_ns chunk ops -> chunk_parses chunk ops.
+Proof. induction 1; econstructor; eauto. Qed.
+
+Lemma chunk_ns_hd chunk ops : chunk_ns chunk ops -> hd 0%N chunk <> STAR.
+Proof. destruct 1; cbn [hd]; try discriminate. assumption. Qed.
+
+(* ---- scanChunk over bytes, tokens, classes, chunks ---------------------------------------------- *)
+Lemma scan_in c p i : c <> BSLASH -> c <> RBRACK -> scan_len Linux (c :: p) true i = scan_len Linux p true (S i).
+Proof.
+  intros H1 H2. cbn [scan_len]. apply N.eqb_neq in H1, H2. rewrite H1, H2.
+  destruct (N.eqb c LBRACK); [reflexivity|]. destruct (N.eqb c STAR); reflexivity.
+Qed.
+
+Lemma scan_high_byte c p b i : (128 <= c)%N -> scan_len Linux (c :: p) b i = scan_len Linux p b (S i).
+Proof.
+  intros H. cbn [scan_len].
+  assert (E1 : N.eqb c BSLASH = false) by (apply N.eqb_neq; unfold BSLASH; lia).
+  assert (E2 : N.eqb c LBRACK = false) by (apply N.eqb_neq; unfold LBRACK; lia).
+  assert (E3 : N.eqb c RBRACK = false) by (apply N.eqb_neq; unfold RBRACK; lia).
+  assert (E4 : N.eqb c STAR = false) by (apply N.eqb_neq; unfold STAR; lia).
+  rewrite E1, E2, E3, E4. reflexivity.
+Qed.
+
+Lemma scan_high (u X : str) b : Forall (fun c => (128 <= c)%N) u ->
+  forall i, scan_len Linux (u ++ X) b i = scan_len Linux X b (i + length u).
+Proof.
+  induction 1 as [|c u Hc _ IH]; intros i; cbn [app length].
+  - rewrite Nat.add_0_r. reflexivity.
+  - rewrite (scan_high_byte _ _ _ Hc), IH. f_equal. lia.
+Qed.
+
+Lemma inr_high lo hi b : inr lo hi b = true -> (128 <= lo)%N -> (128 <= b)%N.
+Proof. unfold inr. intros H Hlo. apply andb_prop in H as [H _]. apply N.leb_le in H. lia. Qed.
+
+(* what DecodeRune consumes: the first byte, then bytes >= 0x80 *)
+Lemma decode_rune_cont c0 s :
+  exists u, firstn (snd (decode_rune (c0 :: s))) (c0 :: s) = c0 :: u /\ Forall (fun c => (128 <= c)%N) u.
+Proof.
+  unfold decode_rune.
+  repeat match goal with
+         | |- context [if ?b then _ else _] => destruct b eqn:?
+         | |- context [match ?l with [] => _ | _ :: _ => _ end] => destruct l
+         end; cbn [snd firstn];
+  repeat match goal with H : _ && _ = true |- _ => apply andb_prop in H; destruct H end;
+  eexists; (split; [reflexivity|]);
+  repeat (constructor; try (eapply inr_high; [eassumption|lia])).
+Qed.
+
+Lemma get_esc_scan chunk r rest' :
+  get_esc Linux chunk = Some (r, rest') ->
+  exists consumed, chunk = consumed ++ rest' /\
+    forall Y i, scan_len Linux (consumed ++ Y) true i = scan_len Linux Y true (i + length consumed).
+Proof.
+  unfold get_esc. destruct chunk as [|c tl]; [discriminate|].
+  destruct (N.eqb c MINUS || N.eqb c RBRACK) eqn:E; [discriminate|].
+  apply orb_false_elim in E as [_ E2]. apply N.eqb_neq in E2.
+  cbn [ostype_eqb negb]. rewrite andb_true_r.
+  destruct (N.eqb c BSLASH) eqn:Eb.
+  - apply N.eqb_eq in Eb. subst c. destruct tl as [|d tl']; [discriminate|].
+    destruct (decode_rune_cont d tl') as (u & Hu & Hh).
+    destruct (decode_rune (d :: tl')) as [r0 n]. cbn [snd] in Hu.
+    destruct (N.eqb r0 RUNE_ERROR && Nat.eqb n 1); [discriminate|].
+    destruct (skipn n (d :: tl')) as [|x nchunk] eqn:Es; [discriminate|]. intros [= <- <-].
+    exists (BSLASH :: d :: u). split.
+    + change ((BSLASH :: d :: u) ++ x :: nchunk) with (BSLASH :: ((d :: u) ++ x :: nchunk)). f_equal.
+      rewrite <- Hu, <- Es. symmetry. apply firstn_skipn.
+    + intros Y i. cbn [app scan_len]. change (N.eqb BSLASH BSLASH) with true. cbv iota.
+      rewrite (scan_high _ _ Hh). cbn [length]. f_equal. lia.
+  - apply N.eqb_neq in Eb. destruct (decode_rune_cont c tl) as (u & Hu & Hh).
+    destruct (decode_rune (c :: tl)) as [r0 n]. cbn [snd] in Hu.
+    destruct (N.eqb r0 RUNE_ERROR && Nat.eqb n 1); [discriminate|].
+    destruct (skipn n (c :: tl)) as [|x nchunk] eqn:Es; [discriminate|]. intros [= <- <-].
+    exists (c :: u). split.
+    + rewrite <- Hu, <- Es. symmetry. apply firstn_skipn.
+    + intros Y i. cbn [app]. rewrite (scan_in _ _ Eb E2), (scan_high _ _ Hh). cbn [length]. f_equal. lia.
+Qed.
+
+Lemma cls_scan b body rs rest0 :
+  cls_parse b body rs rest0 ->
+  exists consumed, body = consumed ++ rest0 /\
+    forall Y i, scan_len Linux (consumed ++ Y) true i = scan_len Linux Y false (i + length consumed).
+Proof.
+  induction 1 as [rest|b chunk lo c1 rs rest E1 Hm _ IH|b chunk lo c2 hi c3 rs rest E1 E2 _ IH].
+  - exists [RBRACK]. split; [reflexivity|]. intros Y i. cbn [app length]. rewrite Nat.add_1_r. reflexivity.
+  - destruct (get_esc_scan _ E1) as (k1 & -> & S1). destruct IH as (k2 & -> & S2).
+    exists (k1 ++ k2). split; [apply app_assoc|]. intros Y i.
+    rewrite <- app_assoc, S1, S2, app_length. f_equal. lia.
+  - destruct (get_esc_scan _ E1) as (k1 & -> & S1). destruct (get_esc_scan _ E2) as (k2 & -> & S2).
+    destruct IH as (k3 & -> & S3).
+    exists (k1 ++ MINUS :: k2 ++ k3). split; [rewrite <- !app_assoc; cbn [app]; rewrite <- !app_assoc; reflexivity|].
+    intros Y i. rewrite <- app_assoc, S1. cbn [app]. rewrite scan_in by discriminate.
+    rewrite <- app_assoc, S2, S3, !app_length. cbn [length]. rewrite app_length. f_equal. lia.
+Qed.
+
+Lemma chunk_scan chunk ops :
+  chunk_ns chunk ops -> forall X i, (X = [] \/ exists r, X = STAR :: r) ->
+  scan_len Linux (chunk ++ X) false i = i + length chunk.
+Proof.
+  induction 1 as [|chunk ops _ IH|c chunk ops _ IH|c chunk ops H1 H2 H3 H4 _ IH|body rs rest ops Hc _ IH|body rs rest ops Hcar Hc _ IH];
+    intros X i HX.
+  - cbn [app length]. destruct HX as [->|(r & ->)]; [cbn; lia|]. cbn. lia.
+  - cbn [app length]. change (scan_len Linux (QMARK :: chunk ++ X) false i) with (scan_len Linux (chunk ++ X) false (S i)).
+    rewrite IH by exact HX. lia.
+  - cbn [app length]. change (scan_len Linux (BSLASH :: c :: chunk ++ X) false i) with (scan_len Linux (chunk ++ X) false (S (S i))).
+    rewrite IH by exact HX. lia.
+  - cbn [app length scan_len]. apply N.eqb_neq in H1, H3, H4. rewrite H1, H3, H4.
+    destruct (N.eqb c RBRACK); rewrite IH by exact HX; lia.
+  - destruct (cls_scan Hc) as (k & -> & Sk). cbn [app length].
+    change (scan_len Linux (LBRACK :: CARET :: (k ++ rest) ++ X) false i)
+      with (scan_len Linux ((k ++ rest) ++ X) true (S (S i))).
+    rewrite <- app_assoc, Sk, IH by exact HX. rewrite app_length. lia.
+  - destruct (cls_scan Hc) as (k & -> & Sk). cbn [app length].
+    change (scan_len Linux (LBRACK :: (k ++ rest) ++ X) false i)
+      with (scan_len Linux ((k ++ rest) ++ X) true (S i)).
+    rewrite <- app_assoc, Sk, IH by exact HX. rewrite app_length. lia.
+Qed.
+
+Lemma strip_stars_repeat k (q : str) :
+  hd 0%N q <> STAR -> snd (strip_stars (repeat STAR k ++ q)) = q.
+Proof.
+  intros Hq. induction k as [|k IH]; cbn [repeat app].
+  - destruct q as [|c q]; [reflexivity|]. cbn [strip_stars hd] in *. apply N.eqb_neq in Hq. rewrite Hq. reflexivity.
+  - cbn [strip_stars]. change (N.eqb STAR STAR) with true. cbv iota. exact IH.
+Qed.
+
+Lemma scan_chunk_grammar k chunk rest ops :
+  (0 < k \/ chunk <> []) -> chunk_ns chunk ops ->
+  (rest = [] \/ exists r, rest = STAR :: r) -> (chunk = [] -> rest = []) ->
+  scan_chunk Linux (repeat STAR k ++ chunk ++ rest) = (Nat.ltb 0 k, chunk, rest).
+Proof.
+  intros Hk Hc Hr Hcr. unfold scan_chunk.
+  assert (Hq : hd 0%N (chunk ++ rest) <> STAR).
+  { destruct chunk as [|c chunk']; [rewrite (Hcr eq_refl); discriminate|]. apply (chunk_ns_hd Hc). }
+  rewrite (strip_stars_repeat k _ Hq), (chunk_scan Hc) by exact Hr. cbn [plus].
+  rewrite firstn_app_at, skipn_app_at. f_equal. f_equal.
+  destruct k as [|k]; [|reflexivity]. cbn [repeat app].
+  destruct Hk as [Hk|Hk]; [lia|]. destruct chunk as [|c chunk']; [congruence|].
+  cbn [app hd] in *. apply N.eqb_neq. exact Hq.
+Qed.
+
+Theorem pattern_grammar_parses pattern cks : pattern_grammar pattern cks -> pat_parses pattern cks.
+Proof.
+  induction 1 as [|k chunk rest ops cks Hk Hc Hr Hcr _ IH]; [constructor|].
+  eapply PP_cons; [|apply (scan_chunk_grammar Hk Hc Hr Hcr)|apply chunk_ns_parses; exact Hc|exact IH].
+  destruct Hk as [Hk|Hk].
+  - destruct k; [lia|discriminate].
+  - destruct k; [|discriminate]. destruct chunk; [congruence|discriminate].
+Qed.
+
+(* conversely: what scanChunk cuts is generated by the grammar *)
+Lemma chunk_parses_ns chunk ops :
+  chunk_parses chunk ops -> forall X i, scan_len Linux (chunk ++ X) false i = i + length chunk -> chunk_ns chunk ops.
+Proof.
+  induction 1 as [|chunk ops _ IH|c chunk ops _ IH|c chunk ops H1 H2 H3 _ IH|body rs rest ops Hc _ IH|body rs rest ops Hcar Hc _ IH];
+    intros X i Hs.
+  - constructor.
+  - constructor. apply (IH X (S i)). cbn [app length] in Hs.
+    change (scan_len Linux (QMARK :: chunk ++ X) false i) with (scan_len Linux (chunk ++ X) false (S i)) in Hs. lia.
+  - constructor. apply (IH X (S (S i))). cbn [app length] in Hs.
+    change (scan_len Linux (BSLASH :: c :: chunk ++ X) false i) with (scan_len Linux (chunk ++ X) false (S (S i))) in Hs. lia.
+  - cbn [app length scan_len] in Hs. pose proof H1 as H1'. pose proof H3 as H3'.
+    apply N.eqb_neq in H1', H3'. rewrite H1', H3' in Hs.
+    destruct (N.eqb_spec c STAR) as [->|Hstar].
+    + change (N.eqb STAR RBRACK) with false in Hs. cbv iota in Hs. lia.
+    + constructor; auto. apply (IH X (S i)). destruct (N.eqb c RBRACK); lia.
+  - destruct (cls_scan Hc) as (k & Ek & Sk). econstructor; [exact Hc|]. subst body.
+    apply (IH X (S (S i) + length k)). cbn [app length] in Hs.
+    change (scan_len Linux (LBRACK :: CARET :: (k ++ rest) ++ X) false i)
+      with (scan_len Linux ((k ++ rest) ++ X) true (S (S i))) in Hs.
+    rewrite <- app_assoc, Sk, app_length in Hs. lia.
+  - destruct (cls_scan Hc) as (k & Ek & Sk). econstructor; [exact Hcar|exact Hc|]. subst body.
+    apply (IH X (S i + length k)). cbn [app length] in Hs.
+    change (scan_len Linux (LBRACK :: (k ++ rest) ++ X) false i)
+      with (scan_len Linux ((k ++ rest) ++ X) true (S i)) in Hs.
+    rewrite <- app_assoc, Sk, app_length in Hs. lia.
+Qed.
+
+Theorem pat_parses_grammar pattern cks : pat_parses pattern cks -> pattern_grammar pattern cks.
+Proof.
+  induction 1 as [|pattern star chunk rest ops cks Hne Hs Hc _ IH]; [constructor|].
+  destruct (scan_chunk_shape Hs) as (k & Hp & Hst & Hr).
+  destruct (scan_chunk_facts Hne Hs) as (_ & Hnil).
+  assert (Hns : chunk_ns chunk ops).
+  { unfold scan_chunk in Hs. injection Hs as _ Hch Hre. set (q := snd (strip_stars pattern)) in *.
+    destruct (@scan_len_stop _ q (le_n _) false 0) as (j & Ej & Hj & _). cbn [plus] in Ej. rewrite Ej in Hch, Hre.
+    apply (chunk_parses_ns Hc rest 0). rewrite <- Hch, <- Hre, firstn_skipn, Ej, firstn_length. lia. }
+  rewrite Hp, Hst. apply PG_cons; auto.
+  destruct k as [|k]; [|left; lia]. right. intros ->. rewrite (Hnil eq_refl) in Hp. cbn in Hp. congruence.
+Qed.
+
+(* the tokenizer-free statement of (a) *)
+Theorem pat_parses_iff_grammar pattern cks : pat_parses pattern cks <-> pattern_grammar pattern cks.
+Proof. split; [apply pat_parses_grammar|apply pattern_grammar_parses]. Qed.
+
+Theorem path_match_true_grammar cr pattern name :
+  path_match Linux cr pattern name = MVal true <-> exists cks, pattern_grammar pattern cks /\ gm cks name.
+Proof.
+  rewrite path_match_true_iff. split; intros (cks & H & Hg); exists cks; (split; [apply pat_parses_iff_grammar; exact H|exact Hg]).
+Qed.
+
+Theorem path_match_bad_grammar pattern name :
+  path_match Linux true pattern name = MBad <-> ~ exists cks, pattern_grammar pattern cks.
+Proof.
+  rewrite path_match_bad_checked. split; intros H (cks & Hc); apply H; exists cks; apply pat_parses_iff_grammar; exact Hc.
+Qed.
